@@ -581,8 +581,8 @@ func durabilityLint(rec *VictimRun, dir, sig0 string) *Fail {
 	return nil
 }
 
-func c08Run(t *testing.T, test string, all bool, gen func(*rapid.T) C08Case) {
-	rec := NewRecorder("C08", test)
+func c08Run(t *testing.T, prop, test string, all bool, gen func(*rapid.T) C08Case) {
+	rec := NewRecorder(prop, test)
 	defer rec.Flush(t)
 	startHoleCreator()
 	run := func(cc C08Case, fatalf func(string, ...interface{})) {
@@ -613,10 +613,22 @@ func c08Run(t *testing.T, test string, all bool, gen func(*rapid.T) C08Case) {
 			rec.AddExtra("exhaustive_pairs", 1)
 		}
 		if f != nil {
-			if rec.Fail("C08", f.Sig, f.Detail, cc) {
+			// a reopened directory whose revision counter is out of range is C10's clause too
+			if strings.Contains(f.Detail, "revision counter") && !f.Has("C10") {
+				f.Props = append(f.Props, "C10")
+			}
+			if !f.Has(prop) {
+				rec.Cross(f.String(), cc)
 				return
 			}
-			fatalf("VIOLATION C08 %s: %s", f.Sig, f.Detail)
+			sig := f.Sig
+			if prop != "C08" {
+				sig = prop + strings.TrimPrefix(sig, "C08")
+			}
+			if rec.Fail(prop, sig, f.Detail, cc) {
+				return
+			}
+			fatalf("VIOLATION %s %s: %s", prop, sig, f.Detail)
 		}
 	}
 	var rp C08Case
@@ -628,7 +640,7 @@ func c08Run(t *testing.T, test string, all bool, gen func(*rapid.T) C08Case) {
 		return
 	}
 	if firstShard() {
-		for _, rf := range regressFiles("TestC08") {
+		for _, rf := range regressFiles(test) {
 			var c C08Case
 			if err := loadCaseFile(rf, &c); err != nil {
 				t.Fatalf("HARNESS ERROR: bad regression file %s: %v", rf, err)
@@ -675,5 +687,28 @@ func genC08Case(t *rapid.T, all bool) C08Case {
 
 // TestC08 — the replica directory is crash-consistent at every instant.
 func TestC08(t *testing.T) {
-	c08Run(t, "TestC08", tier() == "thorough", func(rt *rapid.T) C08Case { return genC08Case(rt, tier() == "thorough") })
+	c08Run(t, "C08", "TestC08", tier() == "thorough", func(rt *rapid.T) C08Case { return genC08Case(rt, tier() == "thorough") })
+}
+
+// TestC10Crash — the revision counter never goes back across a process death or
+// a failed file-system call: the crash / failed-call enumeration of C08 over the
+// operations that read or write the counter, reporting the counter clause.
+func TestC10Crash(t *testing.T) {
+	c08Run(t, "C10", "TestC10Crash", false, func(rt *rapid.T) C08Case {
+		cc := genC08Case(rt, false)
+		switch rapid.IntRange(0, 5).Draw(rt, "c10op") {
+		case 0, 1:
+			cc.Op = Op{K: "open", On: rapid.Bool().Draw(rt, "c10preload")}
+		case 2:
+			cc.Op = genWrite(rt, cc.Pre.Blocks)
+		case 3:
+			cc.Op = Op{K: "setrev", N: rapid.Int64Range(1, 5000).Draw(rt, "c10rev")}
+		case 4:
+			cc.Op = Op{K: "revert", Sel: rapid.IntRange(0, 7).Draw(rt, "c10sel")}
+		default:
+			cc.Op = Op{K: "close"}
+		}
+		cc.Sample = rapid.SliceOfN(rapid.IntRange(0, 200), 4, 6).Draw(rt, "c10sample")
+		return cc
+	})
 }
